@@ -645,11 +645,31 @@ func (p *c21Prop) exec(c *c21Case) (*Violation, *Result) {
 	w := buildWorld(c)
 	k := len(c.Tasks)
 	ctxSeed := func(i int) uint64 { return simrt.Mix(c.Seed, uint64(100+i)) }
-	// phase 1: all tasks interleaved, on a schema and messages nobody has touched yet. The
-	// interleaved phase comes FIRST: state that ygot initialises lazily once per process
-	// (a package-level cache filled on first use) must meet its first users while they run
-	// concurrently; a solo phase in front of it would warm such state up and hide a
-	// publication race that can only happen once per process.
+	// phase 1: every task alone, on its own copy of its private root, in a world of its own
+	// (reference results). It runs first so that the caches inside the Go runtime and the
+	// reflect package (pointer-type and method tables, built lazily under locks this harness
+	// hides from the race detector in race mode) are warm when tasks overlap; what ygot
+	// itself initialises lazily is made cold again below.
+	solo := make([]c21TaskResult, k)
+	ws.p.SetGlobalTree(ws.schema.SchemaTree)
+	ytypes.VerifEvictRegexpCache()
+	for i := range c.Tasks {
+		var root ygot.GoStruct
+		if ws.isWriter(c.Tasks[i]) {
+			root = model.Clone(ws.roots[i]).(ygot.GoStruct)
+		}
+		ctx := simrt.NewCtx(i, fmt.Sprintf("solo-%d", i), simrt.MapRandom, ctxSeed(i), nil)
+		simrt.With(ctx, func() { ws.runTask(c.Tasks[i], root, &solo[i]) })
+	}
+	// phase 2: all tasks interleaved, on a schema and messages nobody has touched yet (the
+	// second world)
+	// ... and on package-level state as a fresh process has it: every package-level variable of
+	// ygot's runtime packages is re-initialised (simulated process restart; nothing is durable),
+	// so that state filled lazily once per process meets its first users while they overlap
+	res.Faults["process_restart"] = 0
+	if simrt.ResetGlobals() > 0 {
+		res.Faults["process_restart"] = 1
+	}
 	w.p.SetGlobalTree(w.schema.SchemaTree)
 	ytypes.VerifEvictRegexpCache()
 	conc := make([]c21TaskResult, k)
@@ -671,18 +691,6 @@ func (p *c21Prop) exec(c *c21Case) (*Violation, *Result) {
 	sr, trs := simrt.RunTasks(simrt.SchedCfg{Seed: c.Sched.Seed, MeanGap: c.Sched.MeanGap, Starve: c.Sched.Starve, StarveTo: c.Sched.StarveTo,
 		Replay: c.Sched.Replay, Explicit: c.Sched.Explicit, MaxSteps: 50_000_000, HideSync: c.Sched.RaceMode && *flagHideSync && simrt.RaceBuild, LockBias: c.Sched.LockBias}, ctxs, fns)
 	races := simrt.RaceErrors() - racesBefore
-	// phase 2: every task alone, on its own copy of its private root in an equal world (reference results)
-	solo := make([]c21TaskResult, k)
-	ws.p.SetGlobalTree(ws.schema.SchemaTree)
-	ytypes.VerifEvictRegexpCache()
-	for i := range c.Tasks {
-		var root ygot.GoStruct
-		if ws.isWriter(c.Tasks[i]) {
-			root = model.Clone(ws.roots[i]).(ygot.GoStruct)
-		}
-		ctx := simrt.NewCtx(i, fmt.Sprintf("solo-%d", i), simrt.MapRandom, ctxSeed(i), nil)
-		simrt.With(ctx, func() { ws.runTask(c.Tasks[i], root, &solo[i]) })
-	}
 	res.Steps = sr.Steps
 	res.Extra["sched_hash"] = fmt.Sprintf("%016x", sr.Hash)
 	res.Extra["preempts"] = sr.Preempts
